@@ -106,7 +106,7 @@ def run(ctx):
         pairs = [c for c in cases if c["part"] == "pair"]
         hist = [c for c in cases if c["part"] != "pair"]
         ctx.rng.shuffle(hist)
-        cases = pairs + hist[:22000]
+        cases = pairs + hist[:16000]
     ctx.rng.shuffle(cases)
     for i, c in enumerate(cases):
         c["id"] = i + 1
@@ -130,7 +130,7 @@ def run(ctx):
     ]
     nontriv = sum(1 for t in traces if any(e["op"] == "recv" for e in t["ev"]))
     return dict(evaluations=len(traces), distinct=nontriv,
-                rule="TLC enumerates every send-class x receive-class pair on both layers and every valid history over the reduced classes up to the length bound; thorough runs a seeded 22000-history subset of the depth-4 space plus all pairs; non-trivial = at least one message reached a receive",
+                rule="TLC enumerates every send-class x receive-class pair on both layers and every valid history over the reduced classes up to the length bound; thorough runs a seeded 16000-history subset of the depth-4 space plus all pairs; non-trivial = at least one message reached a receive",
                 exhaustive=False)
 
 
